@@ -153,3 +153,9 @@ func (m *memConn) Unread() int {
 	defer m.mu.Unlock()
 	return len(m.in)
 }
+
+func (m *memConn) isClosed() bool {
+	m.mu.Lock()
+	defer m.mu.Unlock()
+	return m.closed
+}
